@@ -63,7 +63,21 @@ def cflags():
     return fl
 
 
-def compile_ir(src, name=None, extra_flags=(), passes=PASSES):
+def _rename_internal(ll_path, suffix):
+    """append `suffix` to every symbol with internal/private linkage (two generated modules define the same static
+    names; the executor's symbol table is flat)"""
+    import re
+    text = open(ll_path).read()
+    names = set(re.findall(r'^@([-a-zA-Z$._0-9]+) = (?:internal|private) ', text, re.M))
+    names.update(re.findall(r'^define (?:internal|private) [^@\n]*@([-a-zA-Z$._0-9]+)\(', text, re.M))
+    def sub(m):
+        n = m.group(1)
+        return '@' + n + suffix if n in names else m.group(0)
+    text = re.sub(r'@([-a-zA-Z$._0-9]+)', sub, text)
+    open(ll_path, 'w').write(text)
+
+
+def compile_ir(src, name=None, extra_flags=(), passes=PASSES, rename_internal=None):
     """C file -> parsed Module (and path of the .ll)"""
     sd = common.scratch_dir()
     name = name or os.path.splitext(os.path.basename(src))[0]
@@ -78,6 +92,8 @@ def compile_ir(src, name=None, extra_flags=(), passes=PASSES):
                        stderr=subprocess.STDOUT)
     if r.returncode != 0:
         raise common.Inconclusive('opt failed on %s:\n%s' % (ll0, r.stdout.decode()[-3000:]))
+    if rename_internal:
+        _rename_internal(ll, rename_internal)
     mod = llparse.parse_module(ll)
     mod.source = src
     return mod
